@@ -139,6 +139,7 @@ class Engine:
         self.events = []
         self.choices = []     # (label, value) of engine-level choices on this path
         self.nfork = 0
+        self.decided = {}     # atoms already decided on this path (the path condition only grows)
 
     # -- variables ----------------------------------------------------------------------
     def sym(self, name, kind='real', role='input'):
@@ -239,9 +240,29 @@ class Engine:
                     raise DeadPath()
                 self._set_model(which, m)
 
+    @staticmethod
+    def _akey(a):
+        items = sorted(a.p.items())
+        if a.op in ('==', '!=') and items and items[-1][1] < 0:
+            items = [(m, -c) for m, c in items]
+        return (a.op, tuple(items))
+
+    def _remember(self, a, d):
+        k = self._akey(a)
+        self.decided[k] = d
+        self.decided[self._akey(a.neg())] = not d
+
     def branch(self, a):
         if self.concrete:
             raise SymUnsupported('branch on a non-constant atom in concrete mode')
+        hit = self.decided.get(self._akey(a))
+        if hit is not None:
+            return hit
+        d = self._branch(a)
+        self._remember(a, d)
+        return d
+
+    def _branch(self, a):
         if self.depth < len(self.prefix):
             idx, n, forced = self.prefix[self.depth]
             self.depth += 1
